@@ -73,3 +73,16 @@ package dict
 //@           err == nil && cmd == p.command[mk(codeIdx, 0, code, 4294967295)]
 //@   ensures [C17] none: !has(p.command, mk(codeIdx, appid, code, 4294967295)) && !has(p.command, mk(codeIdx, 0, code, 4294967295)) ==> err != nil && cmd == nil
 //@ end
+//@
+//@ # does the dictionary support application id 'code' with the given type name ("" = any)
+//@ spec appsupported(p *Parser, code uint32, typ string) bool =
+//@      (has(p.apptype, mk(appIdTypeIdx, code, typ)) && p.apptype[mk(appIdTypeIdx, code, typ)] != nil) ||
+//@      (has(p.appcode, code) && p.appcode[code] != nil && (len(p.appcode[code].Type) == 0 || p.appcode[code].Type == typ))
+//@
+//@ func (*Parser).App(p, code, typ) (app, err)
+//@   property C11 C17
+//@   requires p != nil && len(typ) == 1
+//@   modifies
+//@   ensures [C17] supported_iff: err == nil <==> appsupported(p, code, typ[0])
+//@   ensures found: err == nil <==> app != nil
+//@ end
